@@ -14,7 +14,7 @@ checks = {}
 for tier in ["quick"]:
     t0 = time.time()
     c = subprocess.run(["/verif/tools/seedcheck.sh", os.path.join(src, "patch.diff"), pid, tier], capture_output=True, text=True)
-    sigs = re.findall(r"^\s+\[([^\]]+)\] ([^:]+(?::[^ :]+)*):", c.stdout, re.M)
+    sigs = [(a, b) for a, b in re.findall(r"^\s+\[([^\]]+)\] (\S+?): ", c.stdout, re.M) if not a.startswith("unrewritten")]
     checks[tier] = {"exit": c.returncode, "detected": c.returncode == 1, "wall_s": round(time.time() - t0, 1),
                     "reported": [f"{a}: {b}" for a, b in sigs][:6]}
 os.makedirs(dst, exist_ok=True)
